@@ -26,7 +26,7 @@ def sh(cmd, cwd=None, timeout=3600, env=None):
 
 
 def restored(a):
-    d = a.stored.rstrip('/')
+    d = os.path.abspath(a.stored.rstrip('/'))
     meta = json.load(open(os.path.join(d, 'meta.json')))
     patch = os.path.join(d, 'patch.diff')
     rc, out = sh('git status --porcelain', cwd=REPO)
